@@ -528,7 +528,9 @@ class Field(mixin.FieldDomain, abstract.PropertiesData):
         if inplace:
             f = self
         else:
-            f = self.copy(data=False)
+            # Note: `copy(data=False)` would also remove the data of
+            # any bounds, interior ring and metadata constructs
+            f = self.copy()
 
         if axes is None:
             existing_axes = f.get_data_axes(default=None)
